@@ -11,9 +11,13 @@ package main
 // every set member involved its bucket id and hash bytes (VerifHash/VerifHashBytes).
 //
 // Predicates on the real outputs: round trip (type preserved, RawEquals and Equals),
-// mirror (plain encoding/json decoding has the value's structure), document round
-// trip, rejection of unknown / marked / infinite, no optional-attribute annotation in the
-// type of any decoded value.
+// mirror (plain encoding/json decoding has the value's structure, for EVERY constraint: wrapper
+// objects exactly at the placeholder positions, numbers compared by value; c15_d15.go, which also
+// evaluates Lean's specification `mirrorsW` on the real token tree), document round
+// trip, rejection of unknown / marked / infinite (infinities at every depth: runC15Inf), no
+// optional-attribute annotation in the type of any decoded value, Marshal of a non-conforming
+// value = Marshal of convert.Convert (runC15Conv), SimpleJSONValue.MarshalJSON = Marshal against
+// the own type, ImpliedType at its nesting limit (runC15Deep), coverage floors (c15Floors).
 //
 // A round-trip failure is signed with its ROOT CAUSE, worked out from what was observed
 // (c15Cause): nested-placeholder-null/-empty (type lost or output refused, and the outcome is
